@@ -1046,7 +1046,59 @@ static Type check_expression_impl(ASTNode *expr, Environment *env) {
             }
             
             /* Regular function call */
-            
+
+            /* Built-ins: the registry knows arity and scalar parameter types.  Check the call's shape here,
+             * before the per-builtin special cases below (several of which infer a result type without
+             * looking at the arguments): (array_get 1 1), (array_push 1 1), (map 1 1), (array_pop),
+             * (str_length f) with f a function, ... are type errors, not run-time 'not an array' faults. */
+            {
+                const BuiltinEntry *be0 = builtin_find(expr->as.call.name);
+                Symbol *shadowing = env_get_var_visible_at(env, expr->as.call.name, expr->line, expr->column);
+                Function *userfn = env_get_function(env, expr->as.call.name);
+                bool user_defined = userfn && userfn->params != NULL;
+                if (be0 && !shadowing && !user_defined && be0->arity <= 4 &&
+                    strcmp(be0->name, "print") != 0 && strcmp(be0->name, "println") != 0 &&
+                    strcmp(be0->name, "assert") != 0) {
+                    int argc0 = expr->as.call.arg_count;
+                    bool arity_ok = (argc0 == be0->arity) ||
+                                    (strcmp(be0->name, "array_new") == 0 && (argc0 == 1 || argc0 == 2));
+                    if (!arity_ok) {
+                        char message[256];
+                        snprintf(message, sizeof(message),
+                                "Function `%s` expects %d argument(s), but got %d.",
+                                safe_format_string(expr->as.call.name), (int)be0->arity, argc0);
+                        emit_context_error("ARITY MISMATCH", expr->line, expr->column,
+                                           (int)safe_strlen(expr->as.call.name), message,
+                                           "Add or remove arguments to match the function signature.");
+                        return TYPE_UNKNOWN;
+                    }
+                    for (int i = 0; i < argc0 && i < be0->arity; i++) {
+                        Type want = be0->param_types[i];
+                        if (want != TYPE_INT && want != TYPE_FLOAT && want != TYPE_BOOL &&
+                            want != TYPE_STRING && want != TYPE_ARRAY) continue;
+                        Type got = check_expression(expr->as.call.args[i], env);
+                        bool got_definite = (got == TYPE_INT || got == TYPE_U8 || got == TYPE_FLOAT || got == TYPE_BOOL ||
+                                             got == TYPE_STRING || got == TYPE_ARRAY || got == TYPE_STRUCT ||
+                                             got == TYPE_UNION || got == TYPE_TUPLE || got == TYPE_FUNCTION ||
+                                             got == TYPE_ENUM);
+                        bool compatible = (got == want) ||
+                                          ((want == TYPE_INT || want == TYPE_FLOAT) && (got == TYPE_INT || got == TYPE_FLOAT || got == TYPE_U8)) ||
+                                          (want == TYPE_INT && got == TYPE_ENUM);
+                        if (got_definite && !compatible) {
+                            char message[256];
+                            snprintf(message, sizeof(message),
+                                    "Argument %d of `%s` expects %s, got %s.",
+                                    i + 1, safe_format_string(expr->as.call.name),
+                                    type_to_string(want), type_to_string(got));
+                            emit_context_error("TYPE MISMATCH", expr->as.call.args[i]->line,
+                                               expr->as.call.args[i]->column, 1, message,
+                                               "Pass an argument of the built-in's parameter type.");
+                            return TYPE_UNKNOWN;
+                        }
+                    }
+                }
+            }
+
             /* Special handling for map builtin - check before environment lookup */
             if (strcmp(expr->as.call.name, "map") == 0) {
                 /* map(array, transform_fn) -> array */
